@@ -385,28 +385,33 @@ def decide(prop, ob, tier, seed, workroot, keep=False):
             for (pname, line, desc) in failed_asserts:
                 key = '%s:L%d' % (ob.name, line)
                 # counterexample trace for this property
-                cmd2 = cbmc_cmd(ob, W, gen, ['--property', pname, '--trace'], slice_formula=True)
-                o2 = os.path.join(W, 'trace_%s.json' % re.sub(r'\W', '_', pname))
-                with open(o2, 'wb') as fo:
-                    rc2, _, se2, dt2 = run(cmd2, cwd=W, timeout=timeout * 2, mem_gb=mem, stdout=fo)
-                res2, st2, _ = parse_cbmc_json(open(o2, errors='replace').read())
-                trace = None
-                for r in (res2 or []):
-                    if r.get('property') == pname and r.get('status') == 'FAILURE': trace = r.get('trace')
-                if trace is None:
-                    R['status'] = 'error'; R['detail'] = 'could not obtain trace for %s' % pname; return R
-                stream = extract_stream(trace)
-                rcn, outn, errn = replay_native(ob, W, stream)
-                confirmed = False; how = ''
-                mfail = re.search(r'ASSERT-FAIL (\d+) ', outn)
-                if line > 0 and ('ASSERT-FAIL %d ' % line) in outn: confirmed = True; how = 'native assertion L%d failed' % line
-                elif line > 0 and mfail and int(mfail.group(1)) in failed_lines:
-                    # the native run stops at the FIRST failing assertion; an earlier harness assertion that CBMC also refuted fails first
-                    confirmed = True; how = 'native run fails the earlier assertion L%s (also refuted by CBMC) before reaching L%d' % (mfail.group(1), line)
-                    line = int(mfail.group(1)); key = '%s:L%d' % (ob.name, line)
-                elif line == 0 and ('THROW' in outn or 'OOB' in outn or 'terminate' in errn): confirmed = True; how = 'native run: ' + ('out-of-range container access' if 'OOB' in outn else 'C++ exception thrown') + ': ' + outn.strip()[-100:]
-                elif line == -1 and (rcn not in (0, 10, 12) or 'ERROR: AddressSanitizer' in errn or 'runtime error' in errn):
-                    confirmed = True; how = 'native run crashed / sanitizer report: ' + (errn.strip().split('\n')[0] if errn.strip() else 'rc=%d' % rcn)
+                # (a sliced trace may take arbitrary branches outside the cone of influence of the property, which misaligns the nondet stream:
+                #  when the stream of the sliced trace does not reproduce natively, the trace is computed once more WITHOUT slicing)
+                for use_slice in (True, False):
+                    cmd2 = cbmc_cmd(ob, W, gen, ['--property', pname, '--trace'], slice_formula=use_slice)
+                    o2 = os.path.join(W, 'trace_%s%s.json' % (re.sub(r'\W', '_', pname), '' if use_slice else '_noslice'))
+                    with open(o2, 'wb') as fo:
+                        rc2, _, se2, dt2 = run(cmd2, cwd=W, timeout=timeout * 2, mem_gb=mem, stdout=fo)
+                    res2, st2, _ = parse_cbmc_json(open(o2, errors='replace').read())
+                    trace = None
+                    for r in (res2 or []):
+                        if r.get('property') == pname and r.get('status') == 'FAILURE': trace = r.get('trace')
+                    if trace is None:
+                        if not use_slice: break    # no unsliced trace within the budget: the verdict of the sliced pass (unconfirmed) stands
+                        R['status'] = 'error'; R['detail'] = 'could not obtain trace for %s' % pname; return R
+                    stream = extract_stream(trace)
+                    rcn, outn, errn = replay_native(ob, W, stream)
+                    confirmed = False; how = ''
+                    mfail = re.search(r'ASSERT-FAIL (\d+) ', outn)
+                    if line > 0 and ('ASSERT-FAIL %d ' % line) in outn: confirmed = True; how = 'native assertion L%d failed' % line
+                    elif line > 0 and mfail and int(mfail.group(1)) in failed_lines:
+                        # the native run stops at the FIRST failing assertion; an earlier harness assertion that CBMC also refuted fails first
+                        confirmed = True; how = 'native run fails the earlier assertion L%s (also refuted by CBMC) before reaching L%d' % (mfail.group(1), line)
+                        line = int(mfail.group(1)); key = '%s:L%d' % (ob.name, line)
+                    elif line == 0 and ('THROW' in outn or 'OOB' in outn or 'terminate' in errn): confirmed = True; how = 'native run: ' + ('out-of-range container access' if 'OOB' in outn else 'C++ exception thrown') + ': ' + outn.strip()[-100:]
+                    elif line == -1 and (rcn not in (0, 10, 12) or 'ERROR: AddressSanitizer' in errn or 'runtime error' in errn):
+                        confirmed = True; how = 'native run crashed / sanitizer report: ' + (errn.strip().split('\n')[0] if errn.strip() else 'rc=%d' % rcn)
+                    if confirmed: break
                 rp = dict(property=prop, obligation=ob.name, tier=tier, assertion_line=line, cbmc_property=pname, description=desc,
                           stream=stream, native_output=outn[-500:], native_stderr=errn[-1500:], confirmed=confirmed, how=how,
                           harness=ob.harness, defines=ob.defines)
@@ -447,7 +452,7 @@ def main():
     ap.add_argument('--only', default=''); ap.add_argument('--keep', action='store_true')
     ap.add_argument('--jobs', type=int, default=int(os.environ.get('VERIF_JOBS', '12')))
     ap.add_argument('-D', action='append', default=[], help='override a harness define K=V (experiments)'); ap.add_argument('--timeout', type=int, default=0)
-    ap.add_argument('--replay', default=None); ap.add_argument('--no-evidence', action='store_true')
+    ap.add_argument('--any-tier', action='store_true', help='with --only: also obligations that are in no tier (experiments)'); ap.add_argument('--replay', default=None); ap.add_argument('--no-evidence', action='store_true')
     a = ap.parse_args()
     seed = int(os.environ.get('VERIF_SEED', '1'))
     import obligations
@@ -467,7 +472,7 @@ def main():
         shutil.rmtree(workroot, ignore_errors=True)
         if bad: print('VIOLATION property=%s replay=%s' % (a.prop, a.replay)); sys.exit(1)
         print('replay did not reproduce the violation on the current tree'); sys.exit(0)
-    obs = [o.for_tier(a.tier) for o in obs_all if a.tier in o.tiers]
+    obs = [o.for_tier(a.tier) for o in obs_all if a.tier in o.tiers or (a.any_tier and a.only)]
     if a.only:
         import fnmatch; want = a.only.split(','); obs = [o for o in obs if any(fnmatch.fnmatchcase(o.name, w) for w in want)]
     for o in obs:
